@@ -226,6 +226,7 @@ def run_property(spec, tier='quick', seed=0, root='/repo', jobs=None):
     solver_s = 0.0
     samples = []
     per_unit = []
+    bstats = {}
     for r in results:
         if r['error']:
             errors.append((r['unit'], r['error']))
@@ -253,11 +254,18 @@ def run_property(spec, tier='quick', seed=0, root='/repo', jobs=None):
             else:
                 undecided.append((r['unit'], why + f' (bounded stand-in: {n} real evaluations, no failing input)'))
         n_ok = 0
+        bdesc = getattr(spec, 'bounded_units', {}).get(r['unit'])
         for ob in r['obligations']:
-            obligations += 1
+            if bdesc is None:
+                obligations += 1
             solver_s += ob['seconds']
             if ob['status'] == 'proved':
-                discharged += 1
+                if bdesc is None:
+                    discharged += 1
+                else:
+                    # a unit that fixes a size (e.g. |delta| <= 3): a bounded stand-in, reported but never counted as proved
+                    bstats.setdefault(r['unit'], {'kind': bdesc, 'obligations_discharged_within_bound': 0})['obligations_discharged_within_bound'] += 1
+                    continue
                 n_ok += 1
                 backend_count[ob['backend']] = backend_count.get(ob['backend'], 0) + 1
                 if len(samples) < 6 and ob['kind'] != 'lemma':
@@ -378,7 +386,7 @@ def run_property(spec, tier='quick', seed=0, root='/repo', jobs=None):
             'units': per_unit,
             'samples': samples,
             'known_findings_reported': [k.get('what') for k, _ in known_hit],
-            'bounded_standins': [x.get('bounded') for x in extra if x.get('bounded')],
+            'bounded_standins': [x.get('bounded') for x in extra if x.get('bounded')] + [dict(v, unit=k) for k, v in bstats.items()],
             'undecided': [f'{n}: {w}' for n, w in undecided],
             'notes': spec.notes,
         },
